@@ -23,11 +23,11 @@ func init() {
 			"production and only takes part in the race oracle), sequential reference results first (twice each; inputs whose references disagree are left out of the equality oracle), then k in {2, 8, 32, 64} goroutines " +
 			"x GOMAXPROCS in {1, 2, 4, 16, 64} each issuing 3-6 calls on the inputs, no monitor, no hook installed; before the concurrent phase a quarter of the batches each makes no call, a monitored call that returns, a monitored call on the empty graph (panics), a monitored call on a malformed edge (panics); oracles: (1) zero race detector reports (GORACE log of every worker, de-duplicated by the " +
 			"innermost autog frames), (2) every concurrent result equals its sequential reference byte for byte, (3) at the quiescent point the monitor globals are idle and the default options are unchanged (hook H4); " +
-			"every 12th batch runs three graphs with two layers of 60-80 nodes (matrices of thousands of cells in the ordering phase); in the thorough tier 4 batches starve 16 one-second calls on one processor (a result depending on elapsed time then differs from its reference); " +
+			"every 12th batch runs two graphs with two layers of 68-74 nodes (matrices of thousands of cells in the ordering phase); in the thorough tier 4 batches starve 16 one-second calls on one processor (a result depending on elapsed time then differs from its reference); " +
 			"non-trivial = a batch in which calls on different algorithm cells actually overlapped in time (measured with an in-flight counter)",
 		MinNontrivial: counts(24, 240),
 		Required:      []string{"overlapping_calls", "concurrent_calls", "equality_checks", "preamble:2", "preamble:3"},
-		Budget:        120,
+		Budget:        600, // the race detector costs 5-15x; the budget only bounds a stuck worker (hangs are C01's business)
 		Assumptions: []string{
 			"the static enumeration of package-level variables named in the property's quantifier is a static analysis and is NOT done; the runtime substitute is the quiescent-state check of the globals plus the race detector over the executed paths",
 			"the race detector reports races only on executed code under the interleavings that occurred; batches vary goroutine count and GOMAXPROCS to diversify them",
@@ -46,10 +46,13 @@ func init() {
 			case idx%12 == 5:
 				// wide layers: the ordering phase works on matrices of thousands of cells (layer sizes 60-80), the regime in
 				// which buffers get pooled or reused
-				conc.Goroutines, conc.Rounds, conc.Procs = 3, 1, []int{2, 4, 16}[r.Intn(3)]
+				// more goroutines than processors: per-processor caches (sync.Pool) change hands at every preemption
+				conc.Goroutines, conc.Rounds, conc.Procs = 4, 1, []int{1, 2, 2}[r.Intn(3)]
 				conc.Preamble = 0
-				for i := 0; i < 3; i++ {
-					g := gen.Wide(r, 2, 60, 80, 0.03)
+				for i := 0; i < 2; i++ {
+					// two layers of 68-74 nodes (the giant component keeps more than 64 x 64 = 4096 cells): one such layout costs 10-25 s of CPU under the
+					// race detector, so the batch is kept to two graphs, one reference run each and four concurrent calls on one or two processors
+					g := gen.Wide(r, 2, 68, 74, 0.035)
 					var o core.Opts
 					o.Positioner, o.Router = 1, 4
 					conc.Inputs = append(conc.Inputs, core.ConcInput{Edges: gen.Names(g), Opts: o})
@@ -106,7 +109,10 @@ func init() {
 			refs := make([]ref, len(cc.Inputs))
 			for i, in := range cc.Inputs {
 				a := core.RunPlain(in.Edges, in.Opts)
-				b := core.RunPlain(in.Edges, in.Opts)
+				b := a
+				if c.Family != "batch-wide-layers" {
+					b = core.RunPlain(in.Edges, in.Opts)
+				}
 				switch {
 				case a.Panic != nil || b.Panic != nil:
 					refs[i] = ref{"", false}
